@@ -93,6 +93,7 @@ theorem effInput_length {req : List (ReqInput α)} {T : Nat} {n : String}
   | none => simp
   | some vs => simpa using h vs hf
 
+omit [JNum α] in
 theorem inputWarnings_append (req : List (ReqInput α)) (a b : List String) :
     inputWarnings req (a ++ b) = inputWarnings req a ++ inputWarnings req b := by
   simp [inputWarnings]
@@ -273,6 +274,59 @@ theorem inputLoop_none_ok (req : List (ReqInput α)) (nIn : Nat) (hn : 0 < nIn) 
       rcases List.mem_cons.mp hn with rfl | hn'
       · rw [hf] at hw; cases hw; rfl
       · exact this n hn' ws hw
+
+/-- the loop only appends warnings -/
+theorem inputLoop_warnings_ne (req : List (ReqInput α)) (nIn : Nat) :
+    ∀ (rest : List String) (i : Nat) (s s' : InLoop α), inputLoop req nIn rest i s = .ok s' → s.warnings ≠ [] →
+      s'.warnings ≠ []
+  | [], _, s, s', h, hw => by simp only [inputLoop] at h; injection h with h; rw [← h]; exact hw
+  | p :: ps, i, s, s', h, hw => by
+    simp only [inputLoop] at h
+    cases hf : findInput req p with
+    | none =>
+      simp only [hf] at h
+      exact inputLoop_warnings_ne req nIn ps (i + 1) _ s' h (by simp)
+    | some vs =>
+      simp only [hf] at h
+      cases hs : s.inputs with
+      | none =>
+        simp only [hs] at h
+        exact inputLoop_warnings_ne req nIn ps (i + 1) _ s' h hw
+      | some rows =>
+        simp only [hs] at h
+        split at h
+        · cases h
+        · exact inputLoop_warnings_ne req nIn ps (i + 1) _ s' h hw
+
+/-- a problem report: what the deferred `encodeResults` writes when only a message was logged -/
+theorem finish_problem (msg : String) (split : Bool) :
+    finish (α := α) [msg] none 0 emptyDesc split .returned =
+      { written := [document (some [msg]) .null .null], ending := .returned } := rfl
+
+/-- `Initialise` with a kernel whose `InitialiseStates` does not panic: an error, or the assembled run (with a
+non-empty warning list: its first line is the empty string of `make([]string, 1)`) -/
+theorem initialise_cases (cat : String → Option (ModelDesc α)) (K : Kernel α)
+    (hK : ∀ name desc, cat name = some desc → ∀ p, K.init p = .ok ()) (m : ParsedRequest α) :
+    (∃ msg, initialise cat K m = .err msg) ∨
+    (∃ desc params inputs warnings, cat m.name = some desc ∧ warnings ≠ [] ∧
+      initialise cat K m = .ok desc params inputs warnings) := by
+  unfold initialise
+  by_cases hn : m.name = ""
+  · exact Or.inl ⟨"No model name provided", by simp [hn]⟩
+  · simp only [hn, if_false]
+    cases hc : cat m.name with
+    | none => exact Or.inl ⟨_, rfl⟩
+    | some desc =>
+      simp only [paramLoop_spec, hK _ _ hc]
+      cases hl : inputLoop m.inputs desc.inputs.length desc.inputs 0
+          { inputs := none, warnings := [""] ++ paramWarnings m.parameters desc.params } with
+      | error e => exact Or.inl ⟨_, rfl⟩
+      | ok s =>
+        cases hs : s.inputs with
+        | none => exact Or.inl ⟨"No inputs provided", by simp [hs]⟩
+        | some rows =>
+          refine Or.inr ⟨desc, effParams m.parameters desc.params, rows, s.warnings, rfl, ?_, by simp [hs]⟩
+          exact inputLoop_warnings_ne m.inputs _ _ _ _ s hl (by simp)
 
 end
 end OW.Sim.Json
